@@ -42,6 +42,17 @@ def _in_lockdir(p):
     return None
 
 
+def _stack_index(p):
+    """index of the stack (directory named stack<i>) whose lock directory p is or lies in"""
+    p = p.rstrip("/")
+    while p and real_os.path.basename(p) != LOCKDIR:
+        p = real_os.path.dirname(p)
+        if p == "/":
+            return None
+    b = real_os.path.basename(real_os.path.dirname(p))
+    return int(b[5:]) if b.startswith("stack") and b[5:].isdigit() else None
+
+
 # ----------------------------------------------------------------------------------------------
 # child side
 # ----------------------------------------------------------------------------------------------
@@ -50,8 +61,9 @@ class _Gate:
     def __init__(self, rfd, wfd):
         self.r = real_os.fdopen(rfd, "r")
         self.w = real_os.fdopen(wfd, "w")
-        self.order = []          # real pids, newest lock file first
+        self.order = {}          # stack index (str) -> real pids, newest lock file first
         self.pidmap = {}         # real pid (str) -> process index
+        self.multi = False       # several stacks: call names carry "@<stack index>"
 
     def say(self, what):
         self.w.write(what + "\n")
@@ -80,7 +92,9 @@ def _errname(e):
 def _install_proxies(lock, g):
     import re
 
-    def gated(name, fn, ok=lambda r: "ok"):
+    def gated(name, fn, ok=lambda r: "ok", path=None):
+        if g.multi and path is not None:
+            name = "%s@%s" % (name, _stack_index(path))
         g.call(name)
         try:
             r = fn()
@@ -98,12 +112,12 @@ def _install_proxies(lock, g):
             k = _in_lockdir(p)
             if k is None:
                 return real_os.path.exists(p)
-            return gated("exists_dir" if k == "dir" else "exists_file", lambda: real_os.path.exists(p), lambda r: str(bool(r)))
+            return gated("exists_dir" if k == "dir" else "exists_file", lambda: real_os.path.exists(p), lambda r: str(bool(r)), path=p)
 
         def isdir(self, p):
             if _in_lockdir(p) is None:
                 return real_os.path.isdir(p)
-            return gated("isdir", lambda: real_os.path.isdir(p), lambda r: str(bool(r)))
+            return gated("isdir", lambda: real_os.path.isdir(p), lambda r: str(bool(r)), path=p)
 
     class OsProxy:
         path = PathProxy()
@@ -114,34 +128,34 @@ def _install_proxies(lock, g):
         def mkdir(self, p, *a, **kw):
             if _in_lockdir(p) is None:
                 return real_os.mkdir(p, *a, **kw)
-            return gated("mkdir", lambda: real_os.mkdir(p, *a, **kw))
+            return gated("mkdir", lambda: real_os.mkdir(p, *a, **kw), path=p)
 
         def makedirs(self, p, *a, **kw):
             if _in_lockdir(p) is None:
                 return real_os.makedirs(p, *a, **kw)
-            return gated("makedirs", lambda: real_os.makedirs(p, *a, **kw))
+            return gated("makedirs", lambda: real_os.makedirs(p, *a, **kw), path=p)
 
         def open(self, p, fl, *a, **kw):
             if _in_lockdir(p) is None:
                 return real_os.open(p, fl, *a, **kw)
-            return gated("create", lambda: real_os.open(p, fl, *a, **kw))
+            return gated("create", lambda: real_os.open(p, fl, *a, **kw), path=p)
 
         def remove(self, p):
             if _in_lockdir(p) is None:
                 return real_os.remove(p)
-            return gated("remove", lambda: real_os.remove(p))
+            return gated("remove", lambda: real_os.remove(p), path=p)
 
         unlink = remove
 
         def rmdir(self, p):
             if _in_lockdir(p) is None:
                 return real_os.rmdir(p)
-            return gated("rmdir", lambda: real_os.rmdir(p))
+            return gated("rmdir", lambda: real_os.rmdir(p), path=p)
 
         def walk(self, p, *a, **kw):
             if _in_lockdir(p) is None:
                 return real_os.walk(p, *a, **kw)
-            g.call("count")
+            g.call("count@%s" % _stack_index(p) if g.multi else "count")
             first = next(real_os.walk(p, *a, **kw), None)
             if first is None:
                 g.res("StopIteration")
@@ -152,7 +166,7 @@ def _install_proxies(lock, g):
         def listdir(self, p="."):
             if _in_lockdir(p) is None:
                 return real_os.listdir(p)
-            return gated("listdir", lambda: real_os.listdir(p), lambda r: str(len(r)))
+            return gated("listdir", lambda: real_os.listdir(p), lambda r: str(len(r)), path=p)
 
     def show(names):
         out = []
@@ -167,7 +181,8 @@ def _install_proxies(lock, g):
     def rank(f):
         m = re.search(r"\.(\d+)$", f)
         pid = int(m.group(1)) if m else -1
-        return g.order.index(pid) if pid in g.order else len(g.order)
+        order = g.order.get(str(_stack_index(f)), [])
+        return order.index(pid) if pid in order else len(order)
 
     class GlobProxy:
         def __getattr__(self, n):
@@ -178,7 +193,7 @@ def _install_proxies(lock, g):
             if _in_lockdir(d) != "dir":
                 return _glob.glob(pat, *a, **kw)
             name = {"*": "scan_all", "exclusive*": "scan_ex"}.get(base, "scan:" + base)
-            return gated(name, lambda: sorted(_glob.glob(pat, *a, **kw), key=rank), show)
+            return gated(name, lambda: sorted(_glob.glob(pat, *a, **kw), key=rank), show, path=d)
 
     lock.os = OsProxy()
     lock.glob = GlobProxy()
@@ -191,6 +206,7 @@ def _child(spec, rfd, wfd):
         g = _Gate(rfd, wfd)
         init = json.loads(g.recv())
         g.pidmap = init["pidmap"]
+        g.multi = bool(init.get("multi"))
         real_os.environ.pop("EUPS_LOCK_PID", None)
         if init.get("lock_pid") is not None:
             real_os.environ["EUPS_LOCK_PID"] = str(init["lock_pid"])
@@ -217,7 +233,7 @@ def _child(spec, rfd, wfd):
             g.say("ACQFAIL " + type(e).__name__)
             locks = None
         if locks is not None:
-            g.say("HOLD %d" % len(locks))
+            g.say("HOLD " + json.dumps([_stack_index(d) for d, _f in locks]))
             g.call("work")
             g.res("ok")
             if spec.get("explicit", True):
@@ -268,6 +284,7 @@ class Proc:
         self.pending = None       # name of the announced call, None when terminated
         self.ended = False
         self.nlocks = None        # len(locks) once takeLocks has returned
+        self.held = []            # stack indices of those locks
         self.acqfail = None
         self.relfail = None
         self.released = False
@@ -308,7 +325,8 @@ class Proc:
             if ln.startswith("RES "):
                 res = ln[4:]
             elif ln.startswith("HOLD "):
-                self.nlocks = int(ln[5:])
+                self.held = json.loads(ln[5:])
+                self.nlocks = len(self.held)
             elif ln.startswith("ACQFAIL "):
                 self.acqfail = ln[8:]
             elif ln.startswith("RELFAIL "):
@@ -377,53 +395,71 @@ def related(procs, i, j):
 
 
 def run_schedule(case, phases=None):
-    """case = {"procs": [{"kind": "E"|"S", "lp": None|index, "tries": n, "explicit": bool}], "sched": [index..],
-               "base": "default"|"abs", "drain": bool}
+    """case = {"procs": [{"kind": "E"|"S", "lp": None|index, "tries": n, "explicit": bool, "path": [stack index..]}],
+               "sched": [index..], "base": "default"|"abs", "drain": bool, "ndirs": number of stacks (default 1)}
     Runs the real lock code under the schedule, then (drain) every process to its end, in index order.
     Returns {"executed": [...], "trace": [[pid, call, res, violators]], "outcomes": [...], "residue": [...],
-             "events": per-step race-monitor facts, "mid": outcomes at the end of the given schedule}."""
+             "violations": [{"step", "pair", "dir", "class"}], "mid": outcomes at the end of the given schedule}.
+    With one stack the call names are bare ("mkdir"); with several they carry the stack index ("mkdir@1")."""
     common.import_eups()
     root = common.scratch("c09")
-    stack = os.path.join(root, "stack")
-    os.makedirs(stack)
+    nd = case.get("ndirs", 1)
+    multi = nd > 1
+    stacks = []
+    for d in range(nd):
+        st = os.path.join(root, "stack%d" % d)
+        os.makedirs(st)
+        stacks.append(st)
     base = case.get("base", "default")
     if base == "abs":
         base = os.path.join(root, "locks")
-        lockparent = os.path.join(base, stack.lstrip("/"))
-    else:
-        lockparent = stack
     specs = case["procs"]
     n = len(specs)
+    paths = [list(sp.get("path", [0])) for sp in specs]
     procs = []
     try:
         for i, sp in enumerate(specs):
-            procs.append(Proc(i, {"kind": sp["kind"], "dirs": [stack], "ntry": sp.get("tries", 0) + 1,
+            procs.append(Proc(i, {"kind": sp["kind"], "dirs": [stacks[d] for d in paths[i]], "ntry": sp.get("tries", 0) + 1,
                                   "explicit": sp.get("explicit", True), "base": base}))
         pidmap = {str(p.pid): p.index for p in procs}
         for p, sp in zip(procs, specs):
             lp = sp.get("lp")
-            p.start({"pidmap": pidmap, "lock_pid": (procs[lp].pid if lp is not None and lp < n else (999999 if lp is not None else None))})
-        order = []          # real pids, newest lock file first
+            p.start({"pidmap": pidmap, "multi": multi,
+                     "lock_pid": (procs[lp].pid if lp is not None and lp < n else (999999 if lp is not None else None))})
+        order = {str(d): [] for d in range(nd)}     # per stack: real pids, newest lock file first
         trace, executed = [], []
-        # race monitors, evaluated on the real run (class predicates of the known findings)
-        aflag = [False] * n
-        bflag = [False] * n
+        # race monitors, evaluated on the real run (class predicates of the known findings), per stack
+        aflag = [[False] * nd for _ in range(n)]
+        bflag = [[False] * nd for _ in range(n)]
         viols = []
 
-        def inflight(q):
-            return procs[q].pending in ("scan_ex", "create")
+        def split(name):
+            if name and "@" in name:
+                c, d = name.rsplit("@", 1)
+                return c, (int(d) if d.isdigit() else None)
+            return name, (0 if not multi else None)
+
+        def inflight(q, d):
+            c, dd = split(procs[q].pending)
+            return c in ("scan_ex", "create") and dd == d
 
         def current_violators(record):
             v = []
             for a in range(n):
                 for b in range(n):
-                    if a != b and not related(specs, a, b) and procs[a].in_body and procs[a].nlocks and \
-                            specs[a]["kind"] == "E" and procs[b].in_body:
-                        v.append([a, b])
-                        if record:
-                            cls = "D12c" if not procs[b].nlocks else "D12b" if (bflag[a] or bflag[b]) else \
-                                  "D12a" if (aflag[a] or aflag[b]) else None
-                            viols.append({"step": len(trace), "pair": [a, b], "class": cls})
+                    if a == b or related(specs, a, b) or not (procs[a].in_body and procs[b].in_body):
+                        continue
+                    if specs[a]["kind"] != "E":
+                        continue
+                    ds = [d for d in procs[a].held if d in paths[b]]
+                    if not ds:
+                        continue
+                    v.append([a, b])
+                    if record:
+                        d = ds[0]
+                        cls = "D12c" if d not in procs[b].held else "D12b" if (bflag[a][d] or bflag[b][d]) else \
+                              "D12a" if (aflag[a][d] or aflag[b][d]) else None
+                        viols.append({"step": len(trace), "pair": [a, b], "dir": d, "class": cls})
             return v
 
         def one(i):
@@ -432,23 +468,26 @@ def run_schedule(case, phases=None):
             if p.pending is None:
                 trace.append([i, "-", "-", current_violators(False)])
                 return
-            before = [inflight(q) for q in range(n)]
+            before = [[inflight(q, d) for d in range(nd)] for q in range(n)]
             name, res = p.go(order)
-            if name == "mkdir":
-                aflag[i] = bflag[i] = False
-            if (name == "scan_ex" and p.pending in ("scan_ex", "create")) or (name == "scan_all" and p.pending == "scan_ex"):
-                # an admission test passed (the "exclusive*" listing, or the parent test of an exclusive request)
-                if any(q != i and not related(specs, i, q) and before[q] and
-                       (specs[i]["kind"] == "E" or specs[q]["kind"] == "E") for q in range(n)):
-                    aflag[i] = True
-            if name == "rmdir" and res == "ok":
-                for q in range(n):
-                    if q != i and before[q]:
-                        bflag[q] = True
-            if name == "create" and res == "ok" and p.pid not in order:
-                order.insert(0, p.pid)
-            if name == "remove" and res == "ok" and p.pid in order:
-                order.remove(p.pid)
+            c, d = split(name)
+            nc, _nd = split(p.pending)
+            if d is not None and 0 <= d < nd:
+                if c == "mkdir":
+                    aflag[i][d] = bflag[i][d] = False
+                if (c == "scan_ex" and nc in ("scan_ex", "create")) or (c == "scan_all" and nc == "scan_ex"):
+                    # an admission test passed (the "exclusive*" listing, or the parent test of an exclusive request)
+                    if any(q != i and not related(specs, i, q) and before[q][d] and
+                           (specs[i]["kind"] == "E" or specs[q]["kind"] == "E") for q in range(n)):
+                        aflag[i][d] = True
+                if c == "rmdir" and res == "ok":
+                    for q in range(n):
+                        if q != i and before[q][d]:
+                            bflag[q][d] = True
+            if c == "create" and res == "ok" and d is not None and p.pid not in order[str(d)]:
+                order[str(d)].insert(0, p.pid)
+            if c == "remove" and res == "ok" and d is not None and p.pid in order[str(d)]:
+                order[str(d)].remove(p.pid)
             v = current_violators(True)
             trace.append([i, name, res, v])
 
@@ -461,11 +500,11 @@ def run_schedule(case, phases=None):
             t0 = len(trace)
             guard = 0
             if ph == "acq":
-                while procs[i].pending not in (None, "work") and guard < 200:
+                while procs[i].pending not in (None, "work") and guard < 400:
                     one(i)
                     guard += 1
             else:
-                while procs[i].pending is not None and guard < 200:
+                while procs[i].pending is not None and guard < 400:
                     one(i)
                     guard += 1
             phase_steps.append([t0, len(trace)])
@@ -473,21 +512,28 @@ def run_schedule(case, phases=None):
         if case.get("drain", True):
             for i in range(n):
                 guard = 0
-                while procs[i].pending is not None and guard < 200:
+                while procs[i].pending is not None and guard < 400:
                     one(i)
                     guard += 1
         outcomes = [p.outcome() for p in procs]
-        residue = []
-        for d, _, files in os.walk(root):
-            if os.path.basename(d) == LOCKDIR:
-                residue.append(LOCKDIR)
+        listing = []
+        for d in range(nd):
+            ld = os.path.join((os.path.join(base, stacks[d].lstrip("/")) if case.get("base") == "abs" else stacks[d]), LOCKDIR)
+            ent = []
+            if os.path.isdir(ld):
+                ent.append(LOCKDIR)
                 names = []
-                for f in files:
+                for f in os.listdir(ld):
                     pid = f.rsplit(".", 1)[-1]
                     names.append((("E" if f.startswith("exclusive-") else "S") + str(pidmap[pid])) if pid in pidmap else "?" + f)
-                residue += sorted(names)
+                ent += sorted(names)
+            listing.append(ent)
+        residue = listing[0] if not multi else listing
+        if not any(listing):
+            residue = []
         return {"executed": executed, "trace": trace, "outcomes": outcomes, "mid": mid, "residue": residue,
-                "violations": viols, "phase_steps": phase_steps, "lockdir_parent_exists": os.path.isdir(lockparent)}
+                "violations": viols, "phase_steps": phase_steps,
+                "held": [p.held if p.nlocks is not None else None for p in procs]}
     finally:
         for p in procs:
             if not p.ended:
